@@ -1207,7 +1207,11 @@ class SE3(SO3):
         :seealso: :func:`~delta`, :func:`~spatialmath.base.transform3d.delta2tr`
         :SymPy: supported
         """
-        return cls(base.trnorm(base.delta2tr(d)))
+        T = base.delta2tr(d)
+        if T.dtype == 'O':
+            # symbolic: cannot be normalised or checked numerically
+            return cls(T, check=False)
+        return cls(base.trnorm(T))
 
     @classmethod
     def Tx(cls, x):
